@@ -242,7 +242,18 @@ def run_case(case, ctx):
     finally:
         field_wfsa.proj = orig
     if ok:
-        ctx.check(APIS[2], mn.dim == rank, "min/dim-not-hankel-rank", case, {"min.dim": mn.dim, "hankel_rank": rank, "input_states": A["n"]})
+        # "well-conditioned" (property text): the exact rank must also be the numerical rank by a wide margin,
+        # otherwise a floating-point minimiser may legitimately merge nearly dependent directions
+        # (e.g. two eigenvalues 0.2333 / 0.2344): singular values of the Hankel block over strings <= n
+        words = list(GG.strings_upto(A["alphabet"], min(A["n"], 3 if len(A["alphabet"]) > 1 else 5)))
+        H = np.array([[float(DA(u + v)) for v in words] for u in words])
+        sv = np.linalg.svd(H, compute_uv=False) if H.size else np.array([])
+        sv = sv[sv > 0]
+        well = rank == 0 or (len(sv) >= rank and sv[rank - 1] / sv[0] >= 1e-3 and (len(sv) == rank or sv[rank] / sv[0] <= 1e-9))
+        if well:
+            ctx.check(APIS[2], mn.dim == rank, "min/dim-not-hankel-rank", case, {"min.dim": mn.dim, "hankel_rank": rank, "input_states": A["n"]})
+        else:
+            ctx.skip(APIS[2], "generator:ill-conditioned-hankel")
         for x in GG.strings_upto(A["alphabet"], 4 if len(A["alphabet"]) == 1 else 3):
             ok, v = ctx.call(APIS[3], dict(case, x=list(x)), mn, x, mech_prefix="min(xs)")
             if ok:
